@@ -212,6 +212,8 @@ func TestExhaustive(t *testing.T) {
 
 var segPool = []string{"..", ".", "a", "b", "...", "..a", "a..", ".a", "", " ", "\\", "..\\", "%2e%2e", "..;", "é", "\x01", "~", "-", "a b", "....", ". .", ".\x00.", "\x00..", "..\x00", "a\x00b", "\x00", ".\t.", "..\r"}
 
+var longSeg100, longSeg130, longSeg300 = strings.Repeat("d", 100), strings.Repeat("d", 130), strings.Repeat("d", 300)
+
 func genURL() *rapid.Generator[string] {
 	structured := rapid.Custom(func(t *rapid.T) string {
 		n := rapid.IntRange(0, 8).Draw(t, "nseg")
@@ -242,7 +244,30 @@ func genURL() *rapid.Generator[string] {
 		unit := rapid.SampledFrom([]string{"a/", "../", "a/../", "./", "x", "../../a/", "\\../"}).Draw(t, "unit")
 		return rapid.SampledFrom([]string{"", "/", "//"}).Draw(t, "lead") + strings.Repeat(unit, n/len(unit)+1)[:n] + rapid.SampledFrom([]string{"", "..", "/..", "/../.."}).Draw(t, "tail")
 	})
-	return rapid.OneOf(structured, structured, dots, arbitrary, structured, dots, arbitrary, long, rapid.StringOfN(rapid.RuneFrom([]rune{'/', '.', 'a', '\\', '%', ';', ' '}), 0, 30, -1))
+	// climbing first, then a long ordinary remainder: the cleaned path itself is long (a result that outgrows a fixed buffer
+	// or a fast path for short results), and the dot-dot segments come before anything they could cancel against
+	climbThenLong := rapid.Custom(func(t *rapid.T) string {
+		var sb strings.Builder
+		sb.WriteString(rapid.SampledFrom([]string{"", "/", "//"}).Draw(t, "lead"))
+		for i, n := 0, rapid.IntRange(0, 6).Draw(t, "nclimb"); i < n; i++ {
+			sb.WriteString(rapid.SampledFrom([]string{"../", "../", "..//", "a/../../", "./../", ".../", "b/"}).Draw(t, "climb"))
+		}
+		total := rapid.SampledFrom([]int{30, 60, 100, 118, 120, 126, 127, 128, 129, 140, 200, 255, 256, 257, 511, 513, 1023, 1025, 4095, 4097}).Draw(t, "tailLen") +
+			rapid.IntRange(-3, 3).Draw(t, "jitter")
+		segLen := rapid.SampledFrom([]int{1, 2, 7, 64, 1 << 20}).Draw(t, "segLen")
+		for total > 0 {
+			k := min(segLen, total)
+			sb.WriteString(strings.Repeat(rapid.SampledFrom([]string{"a", "b", "é", "."}).Draw(t, "fill"), k)[:k])
+			total -= k
+			if total > 0 {
+				sb.WriteString("/")
+				total--
+			}
+		}
+		sb.WriteString(rapid.SampledFrom([]string{"", "", "/", "/..", "/../..", "/./"}).Draw(t, "tail"))
+		return sb.String()
+	})
+	return rapid.OneOf(structured, structured, dots, arbitrary, structured, dots, arbitrary, long, climbThenLong, rapid.StringOfN(rapid.RuneFrom([]rune{'/', '.', 'a', '\\', '%', ';', ' '}), 0, 30, -1))
 }
 
 func genBase() *rapid.Generator[string] {
@@ -253,7 +278,7 @@ func genBase() *rapid.Generator[string] {
 		}
 		n := rapid.IntRange(0, 5).Draw(t, "n")
 		for i := 0; i < n; i++ {
-			sb.WriteString(rapid.SampledFrom([]string{"a", "b", "..", ".", "data", "x y", "b\\c", "é", "...", "..a", "~", "~a", "$HOME"}).Draw(t, "seg"))
+			sb.WriteString(rapid.SampledFrom([]string{"a", "b", "..", ".", "data", "x y", "b\\c", "é", "...", "..a", "~", "~a", "$HOME", longSeg100, longSeg130, longSeg300}).Draw(t, "seg"))
 			sb.WriteString(strings.Repeat("/", rapid.IntRange(0, 2).Draw(t, "sep")))
 		}
 		s := sb.String()
